@@ -22,6 +22,8 @@ type Mutant struct {
 	Edits []Edit
 	// Helpers the mutant needs at package level (deduplicated by the caller).
 	Helper string
+	// HelperSrc: declarations to be placed in a sibling file of the package (Helper == "sibling").
+	HelperSrc string
 }
 
 // Apply applies the edits (non-overlapping) to src.
@@ -78,6 +80,15 @@ func Mutants(filename, src string, ops map[string]bool) []Mutant {
 		}
 		add("parenType", e.Pos(), "", Edit{off(e.Pos()), off(e.End()), "(" + text(e) + ")"})
 	}
+	inCallArg := map[ast.Node]bool{}
+	ast.Inspect(f, func(n ast.Node) bool {
+		if c, ok := n.(*ast.CallExpr); ok {
+			for _, a := range c.Args {
+				inCallArg[a] = true
+			}
+		}
+		return true
+	})
 	var funcStack []*ast.FuncType
 	var visit func(n ast.Node) bool
 	visit = func(n ast.Node) bool {
@@ -298,6 +309,12 @@ func Mutants(filename, src string, ops map[string]bool) []Mutant {
 		case *ast.BasicLit:
 			if n.Kind == token.STRING {
 				add("emptyString", n.Pos(), "", Edit{off(n.Pos()), off(n.End()), `""`})
+			}
+			if (n.Kind == token.STRING || n.Kind == token.INT) && inCallArg[n] && want("constInSiblingFile") {
+				// the literal becomes a named constant declared in another file of the package
+				out = append(out, Mutant{Op: "constInSiblingFile", Site: site(n.Pos()), Helper: "sibling",
+					HelperSrc: "const vmSiblingConst = " + text(n) + "\n",
+					Edits:     []Edit{{off(n.Pos()), off(n.End()), "vmSiblingConst"}}})
 			}
 			if n.Kind == token.INT {
 				add("zeroInt", n.Pos(), "", Edit{off(n.Pos()), off(n.End()), "0"})
